@@ -19,6 +19,7 @@ double __sym_diff(double h, double var);                 // d h / d var of the r
 int    __sym_is_symbolic(double d);
 void   __sym_note(const char* msg);
 void   __sym_label(const char* msg);                     // appended to the configuration key of this path
+double __sym_new_positive(const char* name);             // fresh solver variable with x > 0, registered for syntactic sign reasoning (sums/products/quotients of positives are positive without a solver call)
 void   __sym_watchdog(double cpu_seconds, const char* msg); // termination claim: this path must finish within the CPU time (0 disarms); otherwise it FAILs
 double __sym_concretize(double d);                       // model value of a term on this path (used only for reporting)
 #ifdef __cplusplus
@@ -28,4 +29,5 @@ double __sym_concretize(double d);                       // model value of a ter
 #define SYM_ASSUME(c) do { if (!(c)) __sym_prune(); } while (0)
 #include <string>
 static inline double symd(const std::string& n) { return __sym_new_double(n.c_str()); }
+static inline double sympos(const std::string& n) { return __sym_new_positive(n.c_str()); }
 #endif
